@@ -18,6 +18,7 @@ MODULES = [
     "contracts.c_text",
     "contracts.c_langsel",
     "contracts.c_frontend",
+    "contracts.c_frontend_lang",
     "contracts.c_frame",
 ]
 
